@@ -902,6 +902,178 @@ def bit_order_stream(ck, orders):
 
 
 
+# ------------------------------------------------------------------------------------------ histories (one backend object, circuits edited in place)
+def _spec_gate(sp):
+    from tangelo.linq import Gate
+    p = "" if sp.get("k") is None else LC.theta(sp["k"])
+    return Gate(sp["name"], list(sp["target"]), None if sp["control"] is None else list(sp["control"]), p, bool(sp.get("var", False)))
+
+
+def _apply_op(c, op):
+    """Apply one recorded in-place edit to the real Circuit object."""
+    kind = op[0]
+    if kind == "reindex":
+        c.reindex_qubits(list(op[1]))
+    elif kind == "trim":
+        c.trim_qubits()
+    elif kind == "add":
+        c.add_gate(_spec_gate(op[1]))
+    elif kind == "merge":
+        c.merge_rotations()
+    elif kind == "simplify":
+        c.simplify()
+    elif kind == "redundant":
+        c.remove_redundant_gates()
+    elif kind == "param":
+        c._gates[op[1]].parameter = LC.theta(op[2])
+    elif kind == "var":
+        c._variational_gates[op[1]].parameter = LC.theta(op[2])
+    elif kind == "retarget":
+        c._gates[op[1]].target = list(op[2])
+    elif kind in ("other", "again"):
+        pass
+    else:
+        raise RuntimeError("harness: unknown history op %r" % (op,))
+
+
+def _history_step(sim, c, order, use_isv, n_shots=None):
+    """simulate(c) on the REUSED backend object, judged against np_sim on the circuit's CURRENT gate list."""
+    n = c.width
+    gates = [(g.name, list(g.target), None if g.control is None else list(g.control), None if isinstance(g.parameter, str) else float(g.parameter)) for g in c._gates]
+    psi0 = np_sim.run(gl(dense_prefix(list(range(n)))), n) if use_isv else np_sim.run([], n)
+    ref = np_sim.run(gates, n, psi0.copy())
+    isv = to_order(psi0, n, order) if use_isv else None
+    f, sv = sim.simulate(c, return_statevector=n_shots is None, initial_statevector=isv)
+    f = {k: float(np.real(complex(np.asarray(v).ravel()[0]))) for k, v in f.items()}
+    if n_shots is not None:
+        return sampled_issues(f, np.abs(ref) ** 2, n, n_shots if sim.__class__.__name__ != "SympySimulator" else None), f
+    sv = np.array(sv).astype(complex).ravel()
+    return property_issues({"n": n}, order, f, sv, ref), f
+
+
+def run_history(h, order, stop_at=None):
+    """Execute a recorded history; returns (index of the first failing step or None, its issues, op before it).  Step -1 is the first simulate."""
+    from tangelo.linq import Circuit, get_backend
+    sim = get_backend(h["backend"])
+    sim_s = get_backend(h["backend"], n_shots=19)
+    c = Circuit([_spec_gate(sp) for sp in h["specs"]], n_qubits=h["n_arg"])
+    other = Circuit([_spec_gate(sp) for sp in h["other"]], n_qubits=h["n_arg"])
+    bad, _ = _history_step(sim, c, order, h["isv"])
+    if bad:
+        return -1, bad, ["first-call"]
+    _history_step(sim_s, c, order, h["isv"], n_shots=19)
+    for i, op in enumerate(h["ops"] if stop_at is None else h["ops"][:stop_at + 1]):
+        if op[0] == "other":
+            b2, _ = _history_step(sim, other, order, h["isv"])
+            if b2:
+                return i, b2, op
+        _apply_op(c, op)
+        if c.width == 0:
+            continue
+        bad, _ = _history_step(sim, c, order, h["isv"])
+        if bad:
+            return i, bad, op
+        bad, _ = _history_step(sim_s, c, order, h["isv"], n_shots=19)
+        if bad:
+            return i, ["sampled on the reused backend object: " + b for b in bad], op
+    return None, [], None
+
+
+def history_stream(ck, orders):
+    """One backend object reused over a sequence of simulate calls on circuit objects edited IN PLACE between the calls."""
+    from tangelo.linq import Circuit
+    rng = ck.rng
+    ck.stream("histories", "one backend object (exact) and one (n_shots=19) reused over 3-7 simulate calls on the same Circuit object edited in place between calls: "
+              "reindex_qubits (permutation, width unchanged), trim_qubits, add_gate, merge_rotations / simplify / remove_redundant_gates (in place), parameter change of a "
+              "non-variational gate, update of a variational parameter, in-place change of a gate's target, another circuit simulated in between, plain repetition; every result "
+              "(statevector, frequencies, sampled support) vs np_sim on the CURRENT gate list; both backends; non-trivial = history contains an edit that keeps size and width")
+    n_c, n_s = (40, 5) if ck.tier == "quick" else (600, 40)
+    for hi in range(n_c + n_s):
+        backend = "cirq" if hi < n_c else "sympy"
+        names = LC.ALL_UNITARY if backend == "cirq" else SYMPY_GATES
+        k = rng.choice([2, 3, 3, 4]) if backend == "cirq" else rng.choice([2, 3])
+        n_arg = rng.choice([None, k, k, k + 1]) if backend == "cirq" else rng.choice([None, k])
+        specs = LC.rand_gate_list(rng, k, rng.randint(2, 7 if backend == "cirq" else 4), names, max_controls=2, var_p=0.3, edge_p=0.2, echo_p=0.3)
+        # every qubit is used, so that the width is k whatever n_arg says and permutations act on all of them
+        specs = [{"name": "H", "target": [q], "control": None, "k": None, "var": False} for q in range(k)] + specs
+        other = LC.rand_gate_list(rng, k, 3, names, max_controls=1, var_p=0.0, edge_p=0.2, echo_p=0.0)
+        h = {"backend": backend, "n_arg": n_arg, "specs": specs, "other": other, "isv": rng.random() < 0.5, "ops": []}
+        # generate the edits against a shadow copy of the real object, so that every recorded op is applicable
+        shadow = Circuit([_spec_gate(sp) for sp in specs], n_qubits=n_arg)
+        keeps = False
+        for _ in range(rng.randint(2, 6) if backend == "cirq" else rng.randint(2, 3)):
+            kind = rng.choice(["reindex", "reindex", "reindex", "trim", "add", "merge", "simplify", "redundant", "param", "param", "var", "var", "retarget", "other", "again"])
+            op = None
+            if kind == "reindex":
+                idx = sorted(shadow._qubit_indices)
+                perm = idx[:]
+                rng.shuffle(perm)
+                if perm != idx:
+                    op = ["reindex", perm]
+                    keeps = True
+            elif kind == "add":
+                op = ["add", LC.rand_gate_spec(rng, max(shadow.width, 2), names, max_controls=2, var_p=0.2)]
+            elif kind == "param":
+                cand = [i for i, g in enumerate(shadow._gates) if g.name in LC.PARAM and not isinstance(g.parameter, str) and not g.is_variational]
+                if cand:
+                    op = ["param", rng.choice(cand), rng.choice([1, 3, 5, -7, 9, 12, -2])]
+                    keeps = True
+            elif kind == "var":
+                cand = [j for j, g in enumerate(shadow._variational_gates) if g.name in LC.PARAM and not isinstance(g.parameter, str)]
+                if cand:                # only parameterised gates take a parameter (a variational flag on H / S / T is legal but inert)
+                    op = ["var", rng.choice(cand), rng.choice([1, 3, 5, -7, 9, 12, -2])]
+                    keeps = True
+            elif kind == "retarget":
+                cand = [i for i, g in enumerate(shadow._gates) if len(g.target) == 1 and g.control is None]
+                free = sorted(shadow._qubit_indices)
+                if cand and len(free) > 1:
+                    i = rng.choice(cand)
+                    t = rng.choice([q for q in free if q != shadow._gates[i].target[0]])
+                    op = ["retarget", i, [t]]
+                    keeps = True
+            else:
+                op = [kind]
+            if op is None:
+                continue
+            try:
+                _apply_op(shadow, op)
+            except Exception:           # noqa   (an edit the classes refuse is simply not part of the history)
+                shadow = Circuit([_spec_gate(sp) for sp in specs], n_qubits=n_arg)
+                for o in h["ops"]:
+                    _apply_op(shadow, o)
+                continue
+            h["ops"].append(op)
+        try:
+            step, bad, op = run_history(h, orders[backend])
+        except Exception as e:          # noqa
+            ck.case("histories", json.dumps(h, sort_keys=True), nontrivial=keeps, sample={"ops": [o[0] for o in h["ops"]], "raised": type(e).__name__}, tags=[backend, "raised"])
+            ck.violation("C01/%s/history/raises/%s" % (backend, type(e).__name__), "a simulate call of the history raised %s: %s; ops %s on %s"
+                         % (type(e).__name__, str(e)[:150], json.dumps(h["ops"])[:300], json.dumps(specs)[:300]), {"kind": "history", "history": h, "order": orders[backend]})
+            continue
+        ck.case("histories", json.dumps(h, sort_keys=True), nontrivial=keeps, sample={"backend": backend, "n_qubits": n_arg, "gates": len(specs), "ops": [o[0] for o in h["ops"]]},
+                tags=[backend, "isv" if h["isv"] else "zero-state"] + sorted({o[0] for o in h["ops"]}))
+        if step is not None:
+            small = dict(h, ops=h["ops"][:step + 1] if step >= 0 else [])
+            # drop earlier edits that are not needed for the failure
+            changed = True
+            while changed and len(small["ops"]) > 1:
+                changed = False
+                for j in range(len(small["ops"]) - 1):
+                    cand = dict(small, ops=small["ops"][:j] + small["ops"][j + 1:])
+                    try:
+                        st2, b2, _ = run_history(cand, orders[backend])
+                    except Exception:       # noqa
+                        continue
+                    if st2 is not None and st2 == len(cand["ops"]) - 1:
+                        small, changed = cand, True
+                        break
+            ck.violation("C01/%s/history/after-%s" % (backend, op[0]),
+                         "the SAME backend object, simulate -> %s -> simulate: the last result is not that of the circuit's current gates (%s); circuit %s, n_qubits=%s"
+                         % (" -> simulate -> ".join(json.dumps(o) for o in small["ops"]) or "(first call)", "; ".join(bad[:2]), json.dumps(small["specs"])[:400], small["n_arg"]),
+                         {"kind": "history", "history": small, "order": orders[backend]})
+
+
+
 def float_stream(ck, orders):
     rng = ck.rng
     ck.stream("float-angles", "random circuits with uniform real angles in [-14, 14] (beyond +-4*pi) against np_sim (tolerance 1e-8), cirq and a few sympy; "
@@ -1109,6 +1281,7 @@ def run(ck):
     guarded("special-angles", special_angles_stream, ck, orders)
     guarded("gate-less", gateless_stream, ck, orders)
     guarded("bit-order", bit_order_stream, ck, orders)
+    guarded("histories", history_stream, ck, orders)
     guarded("malformed", malformed_stream, ck, tables, orders)
     guarded("float-angles", float_stream, ck, orders)
     if ck.tier == "thorough":
@@ -1144,6 +1317,14 @@ def replay(data):
         bad = sampled_issues(f, np.abs(ref) ** 2, case["n"], r["n_shots"] if case["backend"] == "cirq" else None)
         print(f, bad)
         return 1 if bad else 0
+    if kind == "history":
+        step, bad, op = run_history(r["history"], r["order"])
+        print("history:", json.dumps(r["history"]["ops"]))
+        if step is None:
+            print("every simulate call agrees with the circuit's current gates")
+            return 0
+        print("step %d (after %s) VIOLATES: %s" % (step, op, "; ".join(bad[:3])))
+        return 1
     if kind == "stale":
         from tangelo.linq import Gate, Circuit, get_backend
         nm = r["name"]
